@@ -1,4 +1,5 @@
 import ComposeVerif.Props.C05Chain
+import ComposeVerif.Props.C05Cycle
 import ComposeVerif.Model.ExtendsFS
 import ComposeVerif.Props.C12
 /-!
@@ -129,6 +130,37 @@ theorem anchoredFS_not_circular (files : List (String × String × KVs)) (f : St
   obtain ⟨relDir, doc, _, hr⟩ := fsLookup_anchoredFS h
   unfold anchoredFile at hr
   split at hr <;> cases hr
+
+/-- **the outcome read off the link walk, for real loads of canonical files**: real merge step, files anchored by C12's
+resolver — `FuelFree` / `PanicFree` are discharged, what remains are statements about the *documents*: no reference spelled
+like the main file, no `null` service, merges along chains succeed -/
+theorem applyExtends_outcome_by_walk_anchored (mainFile : String) (files : List (String × String × KVs))
+    {order : List String} {dict S : KVs}
+    (hS : lookup "services" dict = some (.map S)) (hnn : NoNull S)
+    (hfs : NoNullFS (realEnv mainFile (anchoredFS files)))
+    (hmain : fileServices (anchoredFS files) mainFile = none) (hord : Visits order S)
+    (fuel : Nat) (hfuel : (keyUniverse (realEnv mainFile (anchoredFS files)) S).length + 1 ≤ fuel)
+    (hfold : ∀ n links leaf, Chain (realEnv mainFile (anchoredFS files)) mainFile S n links leaf →
+      ∃ m, foldChain (realEnv mainFile (anchoredFS files)) leaf.2.2 links = .ok m) :
+    ((∀ n, lookup n S ≠ none → walkChain (realEnv mainFile (anchoredFS files)) fuel S n = .leaf) →
+      ∃ out, applyExtendsOrd (realEnv mainFile (anchoredFS files)) order dict = .ok out) ∧
+    ((∀ n, lookup n S ≠ none → walkChain (realEnv mainFile (anchoredFS files)) fuel S n ≠ .stuck) →
+      (∃ n, lookup n S ≠ none ∧ walkChain (realEnv mainFile (anchoredFS files)) fuel S n = .long) →
+      applyExtendsOrd (realEnv mainFile (anchoredFS files)) order dict = .err "circular") ∧
+    ((∃ n, lookup n S ≠ none ∧ walkChain (realEnv mainFile (anchoredFS files)) fuel S n = .stuck) →
+      ∀ out, applyExtendsOrd (realEnv mainFile (anchoredFS files)) order dict ≠ .ok out) :=
+  applyExtends_outcome_by_walk (anchoredEnv_panicFree mainFile files).fuelFree hS hnn hfs hmain hord fuel hfuel hfold
+
+/-- a cyclic chain through canonical files is reported as `circular`, nothing else, in every visit order -/
+theorem cycle_is_circular_anchored (mainFile : String) (files : List (String × String × KVs))
+    {order : List String} {dict S : KVs}
+    (hS : lookup "services" dict = some (.map S))
+    (hmain : fileServices (anchoredFS files) mainFile = none) (hord : Visits order S)
+    (hall : ∀ n, lookup n S ≠ none → (∃ v, Flat (realEnv mainFile (anchoredFS files)) S n v) ∨
+      Cyclic (realEnv mainFile (anchoredFS files)) (S, n))
+    (hc : ∃ n, lookup n S ≠ none ∧ Cyclic (realEnv mainFile (anchoredFS files)) (S, n)) :
+    applyExtendsOrd (realEnv mainFile (anchoredFS files)) order dict = .err "circular" :=
+  cycle_is_circular (anchoredEnv_panicFree mainFile files).fuelFree hS hmain hord hall hc
 
 /-! ### non-vacuity: a base file in `sub/` (that `anchoredFile "sub" doc` is `.ok d false` with `env_file: [{path: e.env}]`
 turned into `sub/e.env` is what the driver computes and the `c05.base` stream compares with the real
